@@ -1076,6 +1076,16 @@ class LogixDriver(CIPDriver):
 
         for i, (tag, value) in enumerate(tags_values):
             parsed_requests[i]["value"] = value
+            if parsed_requests[i].get("error") is None:
+                if value is None:
+                    parsed_requests[i]["error"] = "Invalid value: None"
+                elif (
+                    parsed_requests[i].get("bit") is not None
+                    and parsed_requests[i]["bool_elements"] is None
+                    and isinstance(value, (list, tuple))
+                    and len(value) != 1
+                ):  # a single bit takes one value
+                    parsed_requests[i]["error"] = f"Invalid value for a single bit: {len(value)} values"
 
         requests = self._write_build_requests(parsed_requests)
         write_results = self._send_requests(requests)
